@@ -309,7 +309,7 @@ def run(tier, seed):
             if harness_ok and ok:
                 terms = ["(%s, (%d)%%N, %s)" % (bounds_term(o, pts[j]), o["t_end"], m5.trace_term(o["events"])) for j, o in enumerate(outs)]
                 expr = ("fun x => match x with (bd, te, tr) => (reject_at tr, c09_fail_at tr, c09_rebuild_fail_at tr, c09_restore_at tr, "
-                        "c01_fail_at tr, c09_cadence bd (6000000000)%N te tr, c09_counts tr, c09_unprobed_claim_at tr, c09_rot_fail_at tr, c09_excl_fail_at tr) end")
+                        "c01_fail_at tr, c09_cadence bd (6000000000)%N te tr, c09_counts tr, c09_unprobed_claim_at tr, c09_rot_fail_at tr, c09_excl_fail_at tr, c09_handoff_fail_at tr) end")
                 rows = m4x.coq_map(work, m5lb.IMPORTS + "From KP Require Import corr.C09rot.\n", "", terms, expr, tag, shard=5)
                 src = next((o for o in outs if sum(1 for e in o["events"] if e["kind"] == "claim") >= 2 and
                             any(e["kind"] == "lb-new" and len(e["args"][1]) >= 2 for e in o["events"])), None) if self_test else None
@@ -322,7 +322,7 @@ def run(tier, seed):
             rejected, mon_fail, e2e, known, drains = [], [], [], [], []
             cnts = [0, 0, 0, 0]
             for j, r in enumerate(rows):
-                rej, mon, reb, rest, m1, cad, cnt, unp, rot, excl = r
+                rej, mon, reb, rest, m1, cad, cnt, unp, rot, excl, hand = r
                 for q in range(4):
                     cnts[q] += cnt[q]
                 if mon is not None:
@@ -334,6 +334,9 @@ def run(tier, seed):
                     mon_fail.append((j, "c09_rebuild_ok", reb[1]))
                 elif m1 is not None:
                     mon_fail.append((j, "c01_ok", m1[1]))
+                elif hand is not None:
+                    mon_fail.append((j, "c09_handoff_ok (the balancer picked a target for a request and the request was answered without "
+                                        "that target either taking it or refusing it because it is draining)", hand[1]))
                 elif excl is not None:
                     mon_fail.append((j, "c09_excl_ok (a probe goroutine applied a failing result while its target was in the rotation and did "
                                         "not rebuild the rotation without it before its next result)", excl[1]))
